@@ -24,9 +24,25 @@ package - rebuilt messages, local shards and proofs, unit shards / proofs / sign
 is kept and compared again with a private copy after thousands of later calls)
 (msg bit-for-bit | err | panic | other).  Equal to the repaired table: fine.  Equal to the as-is
 table only: a divergence keyed by the modelled defect.  Anything else: a divergence keyed by the case.
+
+THE ROUTING LAYER (spec/consensus/Processor.tla, EXTENDS Propeller): Processor.ProcessMessage as the action - map
+messageKey -> subprocessor (own validator with the cached-signature fast path, received indices, build / receive
+thresholds), the finalized time cache, Run's finalize, context end - over several message instances that share
+parts of (committee, publisher, root, nonce): the same payload of the same publisher under another committee id /
+nonce, by another publisher, another payload under the same other three.  TLC: AcceptedOnlySigned, JudgedByOwn /
+OthersUntouched (isolation), DroppedOnlyOwn (the cache never suppresses another instance), AtMostOnce /
+DeliveredIsClosed, GenuineNeverRefused, NeverBlocked hold for the repaired design; the routing properties hold for
+the code's key with every other switch as the code is; every narrowed key (drop committee / nonce / publisher /
+root, cache keyed without publisher, finalize not recording) and the code as it is must be reported in violation.
+Binding: behaviours simulated by TLC from the model of the code as it is (committees of 4, 7, 10; a focus pair of
+sibling instances per behaviour; genuine units, units with the fields of one instance and the signature of its
+sibling, single-defect junk, anything) are stepped through the REAL Processor + Run + subprocessor goroutines with
+real keys and signatures: return value, new/old subprocessor, verdict, subprocessor fate, sizes of the subprocessor
+map / task counter / finalized cache after every step (harness/engines/propeller/processor_test.go).
 """
 import json
 import os
+import re
 from concurrent.futures import ThreadPoolExecutor
 
 import vlib
@@ -47,8 +63,26 @@ def run(ctx):
         return ctx.finish("model_checking", "replay of one recorded case")
 
     thorough = not ctx.quick()
+    part = os.environ.get("VERIF_C19_PART", "")   # development aid only; never set by registered commands
+    if part == "processor":
+        if not os.environ.get("VERIF_SKIP_TLC"):
+            processor_tlc(ctx, thorough)
+        processor_replay(ctx, binary, thorough)
+        return ctx.finish("model_checking", "development run: routing layer only")
     if os.environ.get("VERIF_SKIP_TLC"):   # development aid only (mutation runs); never set by registered commands
+        processor_replay(ctx, binary, thorough)
         return replay_tables(ctx, binary, thorough)
+    with ThreadPoolExecutor(max_workers=1) as bg:
+        fut = bg.submit(processor_tlc, ctx, thorough)
+        try:
+            run_propeller_tlc(ctx, thorough)
+        finally:
+            fut.result()
+    processor_replay(ctx, binary, thorough)
+    return replay_tables(ctx, binary, thorough)
+
+
+def run_propeller_tlc(ctx, thorough):
     r = ctx.tlc_check("consensus", "MCPropeller.tla", "Propeller_thorough.cfg" if thorough else "Propeller_quick.cfg",
                       timeout=2400, coverage=thorough)
     if thorough:
@@ -65,7 +99,107 @@ def run(ctx):
         if mm["ok"]:
             raise vlib.Broken("vacuity: the session properties hold for a validator that records rejected units")
 
-    return replay_tables(ctx, binary, thorough)
+
+EVENTS_KEY = "propeller-processor:local-shard-broadcast-blocks-for-ever:events-channel-never-wired"
+POISON_KEY = "propeller-processor:junk-first-unit-finalizes-key:genuine-units-dropped"
+
+PROC_KEY_PROPS = ["AcceptedOnlySigned", "JudgedByOwn", "OthersUntouched", "DroppedOnlyOwn", "GenuineNeverRefused"]
+PROC_INVARIANTS = {"AcceptedOnlySigned", "OneSubPerInstance", "AtMostOnce", "CompleteMeansThreshold", "NeverBlocked", "CacheOnlyFinalized"}
+
+
+def fixed(ctx, key):
+    return any(k.get("status") == "fixed" and vlib.key_matches(k["key"], key) for k in ctx.known)
+
+
+def processor_tlc(ctx, thorough):
+    """Processor.tla: the repaired design holds; the code's key isolates; every narrowed key / the code as it is violates."""
+    jobs = [("Processor_thorough.cfg" if thorough else "Processor_quick.cfg", None, None, "routing layer, repaired design")]
+    if thorough:
+        jobs.append(("Processor_thorough7.cfg", None, None, "routing layer, repaired design, committee of 7"))
+    jobs.append(("Processor_ascode_key.cfg" if thorough else "Processor_ascode_key_quick.cfg", None, None,
+                 "routing layer, the code as it is: routing properties with the code's key"))
+    jobs.append(("Processor_ascode.cfg", {"GenuineNeverRefused", "NeverBlocked"}, None, "routing layer, the code as it is (expected violation)"))
+    for d in "cnpr":
+        jobs.append(("Processor_x_drop%s.cfg" % d, set(PROC_KEY_PROPS), None, "design mutant: key without %s (expected violation)" % d))
+    jobs.append(("Processor_x_findropp.cfg", {"DroppedOnlyOwn", "GenuineNeverRefused"}, None, "design mutant: finalized cache keyed without publisher (expected violation)"))
+    jobs.append(("Processor_x_norecord.cfg", {"AtMostOnce", "DeliveredIsClosed"}, None, "design mutant: finalize does not record the key (expected violation)"))
+    if thorough:   # every routing property fails on its own under every narrowed key
+        for d in "cnpr":
+            with open(os.path.join(vlib.VERIF, "spec", "consensus", "Processor_x_drop%s.cfg" % d)) as f:
+                base = f.read()
+            for prop in PROC_KEY_PROPS:
+                lines = [l for l in base.splitlines() if not l.startswith("INVARIANTS") and not l.startswith("PROPERTIES")]
+                lines.append(("INVARIANTS " if prop in PROC_INVARIANTS else "PROPERTIES ") + prop)
+                name = "Processor_x_drop%s_%s.cfg" % (d, prop)
+                jobs.append((name, {prop}, {name: "\n".join(lines) + "\n"}, "design mutant: key without %s violates %s" % (d, prop)))
+
+    def one(job):
+        cfg, expect, files, label = job
+        r = ctx.tlc_check("consensus", "ProcessorMC.tla", cfg, timeout=1800, expect_violation=expect is not None, files=files,
+                          label=label, coverage=(thorough and cfg == "Processor_thorough.cfg"),
+                          workers=max(2, int(os.environ.get("VERIF_TLC_WORKERS", "16")) // 2))
+        if expect is not None:
+            if r["ok"]:
+                raise vlib.Broken("vacuity: %s satisfies every property (%s)" % (cfg, label))
+            if r["violated"] not in expect:
+                raise vlib.Broken("%s: TLC reports %s violated, expected one of %s" % (cfg, r["violated"], sorted(expect)))
+        elif thorough and cfg == "Processor_thorough.cfg":
+            vlib.require_actions_covered(r)
+        return r
+
+    with ThreadPoolExecutor(max_workers=2) as ex:
+        list(ex.map(one, jobs))
+
+
+def processor_replay(ctx, binary, thorough):
+    """Behaviours of the model of the code as it is, stepped through the real Processor."""
+    leaf = leaf_encoding(ctx)
+    sw = {"FixLeaf": "FALSE" if leaf == "proto" else "TRUE",
+          "EventsWired": "TRUE" if fixed(ctx, EVENTS_KEY) else "FALSE",
+          "AbortPoisons": "FALSE" if fixed(ctx, POISON_KEY) else "TRUE"}
+    plan = [(7, 4200 if thorough else 1500), (4, 2400 if thorough else 800), (10, 2400 if thorough else 700)]
+
+    def sim(item):
+        np_, depth = item
+        with open(os.path.join(vlib.VERIF, "spec", "consensus", "Processor_sim%d.cfg" % np_)) as f:
+            cfg = f.read()
+        for k, v in sw.items():
+            cfg, n = re.subn(r"^  %s = \w+$" % k, "  %s = %s" % (k, v), cfg, flags=re.M)
+            if n != 1:
+                raise vlib.Broken("Processor_sim%d.cfg has no switch %s" % (np_, k))
+        name = "Processor_sim%d_run.cfg" % np_
+        bs = ctx.tlc_simulate("consensus", "ProcessorMBT.tla", name, depth=depth, timeout=900, files={name: cfg})
+        return {"np": np_, "loc": 1, "behaviours": bs}
+
+    with ThreadPoolExecutor(max_workers=3) as ex:
+        groups = list(ex.map(sim, plan))
+    payload = {"groups": groups, "seed": ctx.seed, "leaf": leaf, "workers": 6,
+               "defects": {"events": EVENTS_KEY, "poison": POISON_KEY, "leaf": H17_KEY}}
+    res = ctx.run_engine(binary, "TestProcessorReplay", payload, timeout=1500)
+    ctx.absorb(res, "propeller", "TestProcessorReplay")
+    st = res.get("stats", {})
+    vlib.log("processor replay: " + ", ".join("%s=%s" % (k[10:], v) for k, v in sorted(st.items()) if k.startswith("processor_")))
+    if not ctx.violations:   # vacuity: the situations the routing properties are about were really driven
+        need = ["processor_steps:process", "processor_steps:finalize", "processor_steps:cancel", "processor_verdict:ok",
+                "processor_verdict:sig", "processor_verdict:dup", "processor_verdict:dropped", "processor_return:full",
+                "processor_genuine_accepted_while_sibling_finalized", "processor_exit_first", "processor_exit_ctx"]
+        need += ["processor_signature_of_warm_sibling:%s" % d for d in "cnpr"]
+        for k in need:
+            if not st.get(k):
+                raise vlib.Broken("vacuity: the processor replay never went through %s" % k)
+    ctx.coverage["processor_situations"] = {k: v for k, v in sorted(st.items()) if k.startswith("processor_")}
+    ctx.coverage["processor_behaviours"] = sum(len(g["behaviours"]) for g in groups)
+    ctx.coverage["processor_steps"] = res.get("steps", 0)
+    ctx.coverage["processor_model_switches"] = sw
+    ctx.assumptions += [
+        "the routing layer is observed through ProcessMessage's return value and the records of Processor.Run; Processor.logger "
+        "(never set by the package on this commit) is set by reflection to a recording logger that also gates finalize; sizes of "
+        "subProcessors / tasks / finalized are read by reflection while Run is quiescent",
+        "StaleMessageTimeout is 30 min in the replay: no expiry of the finalized cache inside a behaviour; a subprocessor's timeout "
+        "is the explicit Cancel step (the creating call's context); committees of <= 3 peers (receive threshold below the count "
+        "after the build stage) are outside the processor model",
+    ]
+    return res
 
 
 H17_KEY = "propeller-validator:honest-unit-rejected:proof-checked-against-marshalled-shards"
@@ -110,8 +244,9 @@ def replay_tables(ctx, binary, thorough):
     ctx.assumptions += [
         "Reed-Solomon algebra (klauspost/reedsolomon), SHA-256 and Ed25519 are trusted: the model only uses "
         "that any `data` shards determine the codeword and that changed inputs do not verify",
-        "the processor files a unit under its index field and creates one validator per (committee, publisher, root, "
-        "nonce); the unexported subprocessor loop itself is not driven (it cannot pass its validator today, see H17)",
+        "in the table replay the processor's rule (a unit is filed under its index field, one validator per (committee, "
+        "publisher, root, nonce)) is applied by the engine; the rule itself is what the routing-layer replay checks on "
+        "the real Processor / subprocessor goroutines (Processor.tla)",
         "outcome classes are compared, not error texts; validator stages are read off the error prefix",
     ]
     return ctx.finish(
@@ -124,4 +259,10 @@ def replay_tables(ctx, binary, thorough):
         "The property does not quantify over schedules; the concurrent round (and the 6 case workers) is nevertheless a verdict "
         "because processing several messages at once is how ONE node's engine uses this package internally (Processor: one "
         "goroutine per message key plus the publisher): package-level state shared between independent messages is part of "
-        "a single node's behaviour, not an interleaving of independent API users")
+        "a single node's behaviour, not an interleaving of independent API users. "
+        "Routing layer: exhaustive TLC on Processor.tla (committee of 4, <= 5 ProcessMessage calls over instances that differ in "
+        "one key field, every unit an adversary can assemble from signed material) for the repaired design and for the code's key; "
+        "6 narrowed-key / life-cycle design mutants and the code as it is must violate; TLC-simulated behaviours of the as-is model "
+        "(committees of 4, 7, 10) are stepped through the real Processor; non-trivial = a unit carrying the signature of a sibling "
+        "instance (differing in committee, nonce, publisher, root) met that sibling's warm validator, genuine units were accepted "
+        "while a sibling instance sat in the finalized cache, and every verdict / return / exit class occurred (checked)")
